@@ -71,6 +71,15 @@ fn main() {
             let mut m = p_epoch::EM::new(&mut rec);
             p_epoch::c16_epochs(&mut m, &g, &mut rng, thorough);
         }
+        "C09" => {
+            let mut m = p_epoch::EM::new(&mut rec);
+            p_epoch::c09_fields(&mut m, &mut rng, thorough, false, true);
+        }
+        "C20" => {
+            let g = p_epoch::EpGen::new(&lm, false);
+            let mut m = p_epoch::EM::new(&mut rec);
+            p_epoch::c20_tow(&mut m, &g, &mut rng, thorough);
+        }
         "C09F" => {
             let mut m = p_epoch::EM::new(&mut rec);
             p_epoch::c09_fields(&mut m, &mut rng, thorough, false, true);
